@@ -390,7 +390,7 @@ class Generator:
         hdr_edits = [e for e in edits]
         apply_edits(out, src, it.start, contract_pos, hdr_edits)
         if fs:
-            self.emit_contract(out, it, fs)
+            self.emit_contract(out, it, fs, assumed=(mode == "assume"))
         if mode == "assume":
             out.repl(src[toks[bo].start:toks[bc].end], "{ unimplemented!() }")
             self.count("E7")
@@ -438,14 +438,14 @@ class Generator:
         self.count("E8-return-name")
         return [Edit(arrow.end, arrow.end, " (%s: " % rname), Edit(last.end, last.end, ")")]
 
-    def emit_contract(self, out, it, fs):
+    def emit_contract(self, out, it, fs, assumed=False):
         def group(kind, clauses):
             if not clauses:
                 return
             out.ins("\n    %s\n" % kind)
             for n, c in enumerate(clauses):
                 out.ins("        " + c.text + ",\n",
-                        {"kind": kind, "fn": it.path, "idx": n, "tags": c.tags, "text": c.text, "where": c.line})
+                        {"kind": kind, "fn": it.path, "idx": n, "tags": c.tags, "text": c.text, "where": c.line, "assumed": assumed})
         group("requires", fs.requires)
         if fs.assume_pre:
             pre = " && ".join("(%s)" % c.text for c in fs.assume_pre)
@@ -534,6 +534,10 @@ class Generator:
                     order += 1
             if ls.decreases:
                 edits.append(Edit(pos, pos, "    decreases %s,\n" % ls.decreases, None, order))
+        if fs.assume_inv:
+            inv = " && ".join("(%s)" % c.text for c in fs.assume_inv)
+            edits.append(Edit(toks[bo].end, toks[bo].end, "\n proof { assume(%s); } /* type invariant, see @assume_inv */\n" % inv, None, 49))
+            self.report.setdefault("assume_inv", []).append({"fn": it.path, "inv": inv})
         if fs.assume_pre:
             pre = " && ".join("(%s)" % c.text for c in fs.assume_pre)
             edits.append(Edit(toks[bo].end, toks[bo].end, "\n proof { assume(%s); } /* call-site precondition, see @assume_pre */\n" % pre, None, 50))
